@@ -213,8 +213,16 @@ impl Opcode for JumpI {
         // immediate, allowing us to actually alter the program counter
         match util::validate_jump_destination(&counter, vm) {
             Ok(target) => {
+                // The new thread inherits the visit counts of this one and starts by executing
+                // the target, so it must not be created if that would take the target past the
+                // iteration limit
+                let target_can_be_visited =
+                    !vm.state()?.visited_instructions().at_visit_limit(target)?;
+
                 // We only want to fork up to the provided limit, so we check if we can first
-                if vm.jump_targets_mut().fork_to(instruction_pointer, target)? {
+                if target_can_be_visited
+                    && vm.jump_targets_mut().fork_to(instruction_pointer, target)?
+                {
                     // If we do have a valid jump target, we need to fork off an execution thread so
                     // that both branches can be executed. Note that the `VM` will step from the
                     // target, but as it is a JUMPDEST no-op this is fine.
